@@ -161,12 +161,27 @@ def run(tier):
     n = 60 if tier == "quick" else 1500
     for prof, share in (("loops", 0.4), ("mixed", 0.3), ("closures", 0.15), ("enums", 0.15)):
         programs += pc.generated_programs(d, max(1, int(n * share)), SEED + 2, prof)
+    programs += pc.corpus_dir_programs("c03")      # hand-written feature programs (struct patterns, generics through bounds, nested generic lambdas)
     builds = ["raw", 0, 31] + SINGLE + ALL_BUT_ONE + PASSES if tier == "quick" else ["raw"] + list(range(32)) + PASSES
     recs = pc.run_programs(d, "progs", programs, builds, jobs=14)
     # the whole repository test-suite as one program: reference, default and shipped configuration
     recs += pc.run_programs(d, "alltests", repo[:1], ["raw", 0, 31] if tier == "quick" else ["raw", 0, 8, 23, 31] + PASSES, jobs=1)
     fails += pc.judge_obs(PID, "ObsC02.cfg", recs, "c02", "repository + generated programs", stats, d)
     log(f"[c02] program phase done at {time.time()-t0:.0f}s")
+    # 4. the absolute half: spec/MIR.tla evaluates the MIR of every build of every program (checks/c02mir.py);
+    #    anything going wrong in that machinery is a tool failure, never a verdict
+    mir_cov = {}
+    try:
+        import c02mir
+        mir_fails, mir_cov = c02mir.run_mir(tier, d, stats)
+        fails += mir_fails
+    except SystemExit:
+        raise
+    except Exception:
+        import traceback
+        log(traceback.format_exc())
+        tool_failure("c02mir.py failed")
+    log(f"[c02] MIR phase done at {time.time()-t0:.0f}s")
     cen = pc.census(recs)
     coverage = {
         "programs": len(recs), "disagreements_checked": sum(2 * max(0, len(r.get("builds", {})) - 1) for r in recs + lrecs) + len(rows),
@@ -176,9 +191,11 @@ def run(tier):
         "loop_rule_states": lr.distinct, "iv_elimination_rule_states": iv.distinct, "loop_cases_replayed": len(lrecs),
         "census": cen, "trace_states_checked_by_tlc": v.generated + stats.get("tlc_states", 0),
     }
+    coverage.update(mir_cov)
     write_evidence(PID, tier, "translation_validation", coverage,
                    ["wasm_interp / ts_run observe the artefacts faithfully",
-                    "the reference run is the unoptimised build of the same compiler (differential), not an independent semantics",
+                    "program level, two references: (a) differential — the observed runs of the unoptimised build of the same compiler on both back ends; (b) absolute — spec/MIR.tla, an executable semantics of the MIR, evaluates the MIR of every build (raw, every pass alone, optimiser configurations) without any back end; MIR.tla itself is bound to the code by agreeing with both back ends on the raw build (mir_raw_run_vs_back_ends; disagreement is MODEL-DRIFT)",
+                    "MIR.tla: 32-bit overflow, division by zero, toInt outside -?[0-9]+, Vec.capacity, identity of strings, depth > 3000 and the statement budget make the reference run implementation-defined (excluded, counted); optimised builds are evaluated with the machine's wrap-around arithmetic",
                     "runs whose unoptimised build overflowed 32 bits or trapped on division are excluded; a build cut off by the verifier's budget is not compared",
                     "the reference is the un-optimised MIR ('raw': optimize_sources skipped); configurations: the 5 switches each alone, each one off, all 32 in the thorough tier; every pass once in isolation through hook H3 (inlining followed by CCP)"],
                    time.time() - t0, fails)
@@ -188,6 +205,9 @@ def run(tier):
 def replay(path):
     case = json.load(open(path))
     d = outdir(PID)
+    if case["kind"] == "mir-program":
+        import c02mir
+        return c02mir.replay(case)
     if case["kind"] == "fold-case":
         c = case["case"]["case"]
         progs = [p for p in c04.arith_programs([(c["op"], c["a"], c["b"])]) if p["kind"] == "fold"]
